@@ -202,6 +202,12 @@ func c06Run(r *hx.Run, cw *c06World, T *[5]time.Time, gc, cr bool, prev *c06Prev
 	if fail == "" && s.Honest && !vr.accepted {
 		fail = "world rejected although every artifact checked at this option level is in date at its own time-set entry (judged against a wrong entry?): " + hx.Trunc(fmt.Sprint(vr.err), 160)
 	}
+	if fail == "" && vr.again != nil && T != nil {
+		// the first call modified what the caller handed in; the identical second call is judged against the SAME caller-supplied times
+		if f2, _ := c06Oracle(cw, eff, gc, cr, vr.again.accepted); f2 != "" {
+			fail = "on the second of two identical calls (" + vr.againWhy + "): " + f2
+		}
+	}
 	if fail == "" && prev != nil && prev.expired && !prev.accepted && vr.accepted {
 		fail = "monotonicity: rejected because expired at T, accepted at a pointwise later T'"
 	}
